@@ -1,4 +1,5 @@
 """Builtins, builtin-type methods, stdlib stubs and the harness API of the vsx interpreter."""
+import ast
 import z3
 
 from .values import *   # noqa: F401,F403
@@ -1300,6 +1301,79 @@ def install_stubs(E):
         def repeat(x, n):
             return E_.mk_list([x] * E_.concretize(n))
 
+        def zip_longest(*its, fillvalue=None):
+            cols = [E_.iterate(it) for it in its]
+            n = max([len(c) for c in cols] or [0])
+            return E_.mk_list([tuple(c[i] if i < len(c) else fillvalue for c in cols) for i in range(n)])
+
+        def product(*its, repeat=1):
+            import itertools as _it
+            cols = [E_.iterate(it) for it in its] * E_.concretize(repeat)
+            return E_.mk_list([tuple(t) for t in _it.product(*cols)])
+
+        def accumulate(it, func=None, initial=None):
+            items = E_.iterate(it)
+            out = []
+            if initial is not None:
+                acc = initial
+                out.append(acc)
+            elif items:
+                acc = items.pop(0)
+                out.append(acc)
+            for v in items:
+                acc = E_.call(func, [acc, v], {}) if func is not None else E_.binop(ast.Add(), acc, v)
+                out.append(acc)
+            return E_.mk_list(out)
+
+        def starmap(f, it):
+            return E_.mk_list([E_.call(f, list(E_.iterate(a)), {}) for a in E_.iterate(it)])
+
+        def takewhile(pred, it):
+            out = []
+            for v in E_.iterate(it):
+                if not E_.decide(E_.truth(E_.call(pred, [v], {}))):
+                    break
+                out.append(v)
+            return E_.mk_list(out)
+
+        def dropwhile(pred, it):
+            items = E_.iterate(it)
+            k = 0
+            while k < len(items) and E_.decide(E_.truth(E_.call(pred, [items[k]], {}))):
+                k += 1
+            return E_.mk_list(items[k:])
+
+        def pairwise(it):
+            items = E_.iterate(it)
+            return E_.mk_list([(items[i], items[i + 1]) for i in range(len(items) - 1)])
+
+        def compress(data, selectors):
+            return E_.mk_list([d for d, s_ in zip(E_.iterate(data), E_.iterate(selectors)) if E_.decide(E_.truth(s_))])
+
+        def filterfalse(pred, it):
+            return E_.mk_list([v for v in E_.iterate(it)
+                               if not E_.decide(E_.truth(E_.call(pred, [v], {}) if pred is not None else v))])
+
+        def combos(name):
+            def f(it, r=None):
+                import itertools as _it
+                items = E_.iterate(it)
+                idx = getattr(_it, name)(range(len(items)), *( [E_.concretize(r)] if r is not None else []))
+                return E_.mk_list([tuple(items[i] for i in t) for t in idx])
+            return f
+
+        def batched(it, n):
+            items = E_.iterate(it)
+            n = E_.concretize(n)
+            if n < 1:
+                E_.throw("ValueError", "n must be at least one")
+            return E_.mk_list([tuple(items[i:i + n]) for i in range(0, len(items), n)])
+
+        for nm, fn_ in (("zip_longest", zip_longest), ("product", product), ("accumulate", accumulate), ("starmap", starmap),
+                        ("takewhile", takewhile), ("dropwhile", dropwhile), ("pairwise", pairwise), ("compress", compress),
+                        ("filterfalse", filterfalse), ("combinations", combos("combinations")), ("permutations", combos("permutations")),
+                        ("batched", batched)):
+            m.ns[nm] = Native(fn_, "itertools." + nm)
         m.ns["chain"] = Native(chain, "itertools.chain")
         m.ns["islice"] = Native(islice, "itertools.islice")
         m.ns["repeat"] = Native(repeat, "itertools.repeat")
